@@ -431,8 +431,88 @@ def walk(e, anc=()):
 
 
 # ------------------------------------------------------------------------------------------ mutants
-STRUCT_KINDS = ("unknown-attr", "unknown-child", "dup-unique-child", "break-constraint", "foreign-attr")
+STRUCT_KINDS = ("unknown-attr", "unknown-child", "dup-unique-child", "break-constraint", "foreign-attr", "misplaced-child")
 VALUE_KINDS = ("bad-enum", "bad-number", "too-many", "too-few", "bad-bool")
+
+
+def violate(rng, g, e, c):
+    """attributes of element e changed so that presence constraint c is violated (None if that cannot be arranged)"""
+    adecl = {a.name: a for a in g.attrs(e.decl, e.project)}
+    gen = DocGen(rng, g, 0)
+    new = dict(e.attrs)
+    val = lambda n: gen.value(adecl[n], force=True) or "x"
+    if c.kind == "exclusive":
+        for b in c.bundles[:2]:
+            for n in b[:1]:
+                if n not in new:
+                    new[n] = val(n)
+    elif c.kind == "together":
+        flat = [n for b in c.bundles for n in b]
+        for n in flat:
+            new.pop(n, None)
+        new[flat[0]] = val(flat[0])
+    elif c.kind == "requires":
+        new.pop(c.bundles[1][0], None)
+        new[c.bundles[0][0]] = val(c.bundles[0][0])
+    elif c.kind == "oneof":
+        for b in c.bundles:
+            new.pop(b[0], None)
+    return None if con_holds(c, new) else list(new.items())
+
+
+MISPLACED = ("body", "worldbody", "geom", "joint", "default", "frame", "option", "key", "site", "inertial", "mujoco")
+
+
+def systematic_mutants(rng, g, paths):
+    """one violation of every kind at every element context: (root, description)"""
+    mujoco = g.s.elements["mujoco"]
+    out = []
+    for key, path in paths.items():
+        def base():
+            root = DocGen(rng, g, 0).element(mujoco, False, 0, p_attr=0.0, path=path)
+            if root is None:
+                return None, None, None
+            leaf, anc = root, []
+            while leaf.kids:
+                anc.append(leaf)
+                leaf = leaf.kids[0]
+            return root, leaf, anc
+        root, leaf, anc = base()
+        if root is None:
+            continue
+        in_alias = any(a.tag in ALIAS for a in anc) or leaf.tag in ALIAS
+        where = "/".join([a.tag for a in anc] + [leaf.tag])
+        decl, project = leaf.decl, leaf.project
+        leaf.attrs.append(("zzbogus", "1"))
+        out.append((root, {"kind": "unknown-attr", "where": where, "in_alias": in_alias, "attr": "zzbogus", "sweep": True}))
+        allowed = {d.xml_name() for d, _, _ in g.children(decl, project)} | ({"worldbody"} if leaf.tag == "mujoco" else set())
+        for t in MISPLACED:
+            if t in allowed:
+                continue
+            root, leaf, anc = base()
+            leaf.kids.append(El(t, None, False))
+            out.append((root, {"kind": "misplaced-child", "where": where, "in_alias": in_alias or t in ALIAS, "child": t, "sweep": True}))
+        for d, card, cp in g.children(decl, project):
+            if card not in "?!" or d.name in SKIP_DECLS:
+                continue
+            root, leaf, anc = base()
+            gen = DocGen(rng, g, 0)
+            k1 = gen.element(d, cp, len(anc) + 1, p_attr=0.0, path=[])
+            k2 = gen.element(d, cp, len(anc) + 1, p_attr=0.0, path=[])
+            if k1 is None or k2 is None:
+                continue
+            leaf.kids += [k1, k2]
+            out.append((root, {"kind": "dup-unique-child", "where": where, "in_alias": in_alias, "child": k1.tag, "sweep": True}))
+        cons, _ = g.constraints(decl, project)
+        for c in cons:
+            root, leaf, anc = base()
+            new = violate(rng, g, leaf, c)
+            if new is None:
+                continue
+            leaf.attrs = new
+            out.append((root, {"kind": "break-constraint", "where": where, "in_alias": in_alias,
+                               "constraint": "%s %s" % (c.kind, c.bundles), "sweep": True}))
+    return out
 
 
 def mutate(rng, g, root, kind):
@@ -444,6 +524,8 @@ def mutate(rng, g, root, kind):
         in_alias = any(a.tag in ALIAS for a in anc) or e.tag in ALIAS
         where = "/".join([a.tag for a in anc] + [e.tag])
         desc = {"kind": kind, "where": where, "in_alias": in_alias}
+        if e.decl is None:
+            continue
         allowed = {a.name for a in g.attrs(e.decl, e.project)}
         if kind == "unknown-attr":
             e.attrs.insert(rng.randint(0, len(e.attrs)), ("zzbogus", "1"))
@@ -462,6 +544,19 @@ def mutate(rng, g, root, kind):
             k = El("zzbogus", None, False)
             e.kids.insert(rng.randint(0, len(e.kids)), k)
             return root, desc
+        if kind == "misplaced-child":
+            # an element of the language in a place where the grammar does not allow it
+            if e.decl is None:
+                continue
+            # (the body row under <mujoco> admits the tag `body` itself through the plain name rule of NameMatch, and `worldbody`)
+            allowed = {d.xml_name() for d, _, _ in g.children(e.decl, e.project)} | ({"worldbody"} if e.tag == "mujoco" else set())
+            pool = [t for t in MISPLACED if t not in allowed]
+            if not pool:
+                continue
+            t = rng.choice(pool)
+            k = El(t, None, False)
+            e.kids.insert(rng.randint(0, len(e.kids)), k)
+            return root, dict(desc, child=t, in_alias=in_alias or t in ALIAS)
         if kind == "dup-unique-child":
             cands = [k for k in e.kids if any(d.name == k.decl.name and card in "?!" for d, card, _ in g.children(e.decl, e.project))]
             if not cands:
@@ -473,30 +568,10 @@ def mutate(rng, g, root, kind):
         if kind == "break-constraint":
             cons, variants = g.constraints(e.decl, e.project)
             rng.shuffle(cons)
-            adecl = {a.name: a for a in g.attrs(e.decl, e.project)}
-            have = dict(e.attrs)
-            gen = DocGen(rng, g, 0)
-            gen.names = {"body": ["b"], "site": ["s"], "geom": ["g"], "joint": ["j"], "camera": ["c"]}
             for c in cons:
-                new = dict(have)
-                if c.kind == "exclusive":
-                    for b in c.bundles[:2]:
-                        for n in b[:1]:
-                            if n not in new:
-                                new[n] = gen.value(adecl[n]) or "x"
-                elif c.kind == "together":
-                    flat = [n for b in c.bundles for n in b]
-                    for n in flat:
-                        new.pop(n, None)
-                    new[flat[0]] = gen.value(adecl[flat[0]]) or "x"
-                elif c.kind == "requires":
-                    new.pop(c.bundles[1][0], None)
-                    new[c.bundles[0][0]] = gen.value(adecl[c.bundles[0][0]]) or "x"
-                elif c.kind == "oneof":
-                    for b in c.bundles:
-                        new.pop(b[0], None)
-                if not con_holds(c, new):
-                    e.attrs = list(new.items())
+                new = violate(rng, g, e, c)
+                if new is not None:
+                    e.attrs = new
                     return root, dict(desc, constraint="%s %s" % (c.kind, c.bundles))
             continue
         # value mutants
@@ -684,6 +759,9 @@ def run(ctx):
             root, desc = m
             docs.append({"root": root, "kind": kind, "desc": desc, "text": render(root), "base": d["text"]})
             kinds_hist[kind] = kinds_hist.get(kind, 0) + 1
+    for root, desc in systematic_mutants(rng, g, paths):
+        docs.append({"root": root, "kind": desc["kind"], "desc": desc, "text": render(root)})
+        kinds_hist["sweep:" + desc["kind"]] = kinds_hist.get("sweep:" + desc["kind"], 0) + 1
     # the canonical witness of the frame/replicate hole, always present
     for txt, desc in [('<mujoco>\n<worldbody>\n<frame>\n<geom size="1" zzbogus="2"/>\n</frame>\n</worldbody>\n</mujoco>\n',
                        {"kind": "unknown-attr", "where": "mujoco/worldbody/frame/geom", "in_alias": True, "attr": "zzbogus"}),
